@@ -761,7 +761,7 @@ fn main() {
         std::process::exit(r.finish());
     }
 
-    let n = args.get_u64("rounds", args.n(2_000, 200_000));
+    let n = args.get_u64("rounds", args.n(2_000, 120_000));
     let seed = args.seed;
     // rounds spawn up to 24 threads each: a few rounds in parallel keep all cores contended
     let mut a = args.clone();
